@@ -62,6 +62,15 @@ class Prob:
     objective_node: ast.AST = None
 
 
+def _exclusive(conds_a, conds_b):
+    """Two path conditions that contain the same test with opposite polarity cannot both hold."""
+    for ta, pa in conds_a:
+        for tb, pb in conds_b:
+            if ta is tb and pa != pb:
+                return True
+    return False
+
+
 class Skeleton:
     def __init__(self, model, f: FunctionInfo):
         self.model = model
@@ -185,7 +194,7 @@ class Skeleton:
             # mentions the old one: constraints = constraints + [...])
             if not any(isinstance(x, ast.Name) and x.id == target.id for x in ast.walk(value)):
                 for c in self.cons:
-                    if c.container == target.id:
+                    if c.container == target.id and not _exclusive(c.cond, conds):
                         c.container = f"{target.id}#rebound@{getattr(st, 'lineno', 0)}"
             self._collect_into(target.id, value, st, stack, conds)
         # problems
@@ -255,12 +264,14 @@ class Skeleton:
                 if c.args:
                     o = c.args[0]
                     on = o
+                    alts = []
                     if isinstance(o, ast.Name):
-                        # objective = cvxpy.Maximize(...)
+                        # objective = cvxpy.Maximize(...)   (possibly one assignment per branch)
                         for n in walk_no_nested(self.f.node):
                             if isinstance(n, ast.Assign) and isinstance(n.targets[0], ast.Name) and n.targets[0].id == o.id and \
                                     n.lineno <= c.lineno:
                                 on = n.value
+                                alts.append(n.value)
                     if isinstance(on, ast.Call):
                         l2 = self._lib(on)
                         if l2 == "cvxpy.Maximize":
@@ -283,6 +294,13 @@ class Skeleton:
                             if isinstance(nm, ast.Name):
                                 conts.append(nm.id)
                 name = assigned.id if isinstance(assigned, ast.Name) else None
+                senses = set()
+                for a in alts:
+                    if isinstance(a, ast.Call):
+                        l3 = self._lib(a)
+                        senses.add("max" if l3 == "cvxpy.Maximize" else "min" if l3 == "cvxpy.Minimize" else "?")
+                if len(senses) > 1:
+                    sense = "mixed"
                 self.probs.append(Prob(sense, objt, conts, c, name, objn))
             elif lib in ("picos.Problem",):
                 name = assigned.id if isinstance(assigned, ast.Name) else None
